@@ -31,7 +31,7 @@ XT = 1e-9
 
 def floors(tier):
     return {"splits_checked": 700, "zero_iteration_restarts": 700, "next_iterate_compared": 600, "chains_checked": 350,
-            "reduced_maxcor_checked": 250, "full_memory_restarts_after_a_reduced_one": 250, "splits_with_2plus_pairs": 350, "splits_right_after_a_rejected_pair": 8, "splits_at_the_iteration_of_a_memory_refresh": 6, "problems_in_huge_units_with_lowered_curvature_threshold_and_inert_update_function": 30, "__nontrivial__": 250}
+            "reduced_maxcor_checked": 250, "full_memory_restarts_after_a_reduced_one": 250, "splits_with_2plus_pairs": 350, "splits_right_after_a_rejected_pair": 8, "problems_traced_through_a_debug_level_logger": 30, "finite_difference_problems_with_steps_given_as_arrays": 15, "splits_at_the_iteration_of_a_memory_refresh": 6, "problems_in_huge_units_with_lowered_curvature_threshold_and_inert_update_function": 30, "__nontrivial__": 250}
 
 
 def cases(tier, seed):
@@ -181,6 +181,12 @@ def run(spec):
     if spec.get("ls"):
         base.update(spec["ls"])
         out.count("problems_with_non_default_line_search_constants")
+    if int(P.spec["seed"]) % 5 == 3:
+        base.update(logger=True, iprint=int([101, 1000, 99, 0][int(P.spec["seed"]) // 5 % 4]))  # the run and its restarts traced through a DEBUG-level logger
+        out.count("problems_traced_through_a_debug_level_logger")
+    if base["jac"] in (None, "2-point") and int(P.spec["seed"]) % 2 == 0:
+        base["fd_steps_as_strided_arrays"] = True  # the differencing steps given per variable, as arrays
+        out.count("finite_difference_problems_with_steps_given_as_arrays")
     if spec.get("huge_units"):
         base.update(jac="callable", explicit_scale=float(spec["huge_units"]), eps_SY=1e-40, ufd="identity", maxfun=100000)
         out.count("problems_in_huge_units_with_lowered_curvature_threshold_and_inert_update_function")
